@@ -153,7 +153,7 @@ def SignIs (s : Int) (v : ℝ) : Prop := (s = 1 ∧ 0 < v) ∨ (s = -1 ∧ v < 0
     vanishes at the value (trusted classical property of the Sylvester determinant). -/
 theorem signLoop_sound (p : MPoly) (ν : ℕ → ℝ) :
     ∀ (fuel : ℕ) (a : Asg) (E : Option QPoly) (s : Int), AsgDen a ν →
-    (∀ e, E = some e → evalR e (evalRealM p ν) = 0) →
+    (∀ e, E = some e → QPoly.eval e 0 = 0 → evalR e (evalRealM p ν) = 0) →
     (∀ (a' : Asg) (R : QPoly), a'.map (fun xz => (xz.1, xz.2.f)) = a.map (fun xz => (xz.1, xz.2.f)) →
         sqfreePart (ZAlg.toQ (eliminant p a')) = some R → evalR R (evalRealM p ν) = 0) →
     signLoop p fuel a E = some s → SignIs s (evalRealM p ν) := by
@@ -185,11 +185,11 @@ theorem signLoop_sound (p : MPoly) (ν : ℕ → ℝ) :
       linarith
     rw [if_neg h3] at h
     -- the eliminant in use
-    have hE'v : ∀ e, nextE p fuel a E = some e → evalR e (evalRealM p ν) = 0 := by
-      intro e he
+    have hE'v : ∀ e, nextE p fuel a E = some e → QPoly.eval e 0 = 0 → evalR e (evalRealM p ν) = 0 := by
+      intro e he h0
       unfold nextE at he
       cases E with
-      | some e0 => simp only [Option.some.injEq] at he; subst he; exact hE e0 rfl
+      | some e0 => simp only [Option.some.injEq] at he; subst he; exact hE e0 rfl h0
       | none =>
         simp only at he
         split_ifs at he
@@ -213,7 +213,7 @@ theorem signLoop_sound (p : MPoly) (ν : ℕ → ℝ) :
           rw [hz0] at this
           simpa using this.symm
         have m0 : (0 : ℝ) ∈ [w] := (hmem 0).2 ⟨⟨by simpa using hlo, by simpa using hhi⟩, hz0R⟩
-        have mv : evalRealM p ν ∈ [w] := (hmem _).2 ⟨⟨by simpa using henc.1, by simpa using henc.2⟩, hE'v e rfl⟩
+        have mv : evalRealM p ν ∈ [w] := (hmem _).2 ⟨⟨by simpa using henc.1, by simpa using henc.2⟩, hE'v e rfl hz0⟩
         rw [List.mem_singleton] at m0 mv
         rw [mv, ← m0]
     · rw [if_neg hz] at h
@@ -233,6 +233,51 @@ theorem C10_sign_sound (p : MPoly) (a : Asg) (ν : ℕ → ℝ) (s : Int) (hden 
         sqfreePart (ZAlg.toQ (eliminant p a')) = some R → evalR R (evalRealM p ν) = 0)
     (h : exactSign p a = some s) : SignIs s (evalRealM p ν) :=
   signLoop_sound p ν 120 a none s hden (by intro e he; cases he) helim h
+
+/-- interval evaluation alone (no eliminant): every answer is certified, without any hypothesis -/
+theorem C10_sign_interval_only (p : MPoly) (a : Asg) (ν : ℕ → ℝ) (s : Int) (fuel : ℕ) (hden : AsgDen a ν)
+    (h : signLoop p fuel a (some [1]) = some s) : SignIs s (evalRealM p ν) := by
+  have key : ∀ (fuel : ℕ) (a : Asg), AsgDen a ν → signLoop p fuel a (some [1]) = some s → SignIs s (evalRealM p ν) := by
+    intro fuel
+    induction fuel with
+    | zero => intro a _ h; simp [signLoop] at h
+    | succ fuel ih =>
+      intro a hden h
+      have hn : nextE p fuel a (some [1]) = some [1] := rfl
+      have hzc : ∀ J, zeroCert (some [1]) J = false := by
+        intro J; unfold zeroCert; simp [QPoly.eval]
+      have henc := ievalM_encloses p (box a) ν (box_mem a ν hden)
+      rw [signLoop] at h
+      by_cases h1 : 0 < (ievalM p (box a)).lo
+      · rw [if_pos h1] at h; cases h
+        left; refine ⟨rfl, ?_⟩
+        have : (0 : ℝ) < ((ievalM p (box a)).lo : ℝ) := by exact_mod_cast h1
+        exact lt_of_lt_of_le this henc.1
+      rw [if_neg h1] at h
+      by_cases h2 : (ievalM p (box a)).hi < 0
+      · rw [if_pos h2] at h; cases h
+        right; left; refine ⟨rfl, ?_⟩
+        have : ((ievalM p (box a)).hi : ℝ) < 0 := by exact_mod_cast h2
+        exact lt_of_le_of_lt henc.2 this
+      rw [if_neg h2] at h
+      by_cases h3 : (ievalM p (box a)).lo = 0 ∧ (ievalM p (box a)).hi = 0
+      · rw [if_pos h3] at h; cases h
+        right; right; refine ⟨rfl, ?_⟩
+        have e1 : ((ievalM p (box a)).lo : ℝ) = 0 := by rw [h3.1]; simp
+        have e2 : ((ievalM p (box a)).hi : ℝ) = 0 := by rw [h3.2]; simp
+        have := henc.1; have := henc.2
+        linarith
+      rw [if_neg h3, hn, hzc] at h
+      simp only [Bool.false_eq_true, if_false] at h
+      by_cases hr : allRat a = true
+      · rw [if_pos hr] at h; simp at h
+      · rw [if_neg hr] at h
+        cases hra : refineAll a with
+        | none => rw [hra] at h; simp at h
+        | some a' =>
+          rw [hra] at h
+          exact ih a' (asgDen_refine a a' ν hden hra).1 h
+  exact key fuel a hden h
 
 /-- the six sign conditions -/
 theorem C10_consistent (cond : ℕ) (s : Int) (v : ℝ) (h : SignIs s v) :
